@@ -485,7 +485,7 @@ func init() {
 			"quick":    "task with (optionally) a condition, a before hook, two commands and an after hook; timeout absent, or present with an arbitrary symbolic duration (64-bit); the clock is a symbolic non-decreasing instant; every command has a symbolic duration and either overruns its context's deadline (cut short with the deadline error) or finishes with success / non-zero status; allow_failure symbolic",
 			"thorough": "two variations (4 commands)",
 		},
-		Outside:     []string{"that the process is actually killed shortly after the deadline, and that the interpreter reports an overrun as a context error rather than an exit status (a child that exits on SIGINT is reported by mvdan.cc/sh as an ordinary status - read in interp/handler.go, not encodable)", "wall-clock units", "the claim is at wiring level: every job carries the timeout, each Execute derives a fresh deadline of the full duration, and the runner reacts correctly to the deadline error"},
+		Outside:     []string{"that the interpreter actually kills the process within the grace period it was configured with (the harness checks the grace period handed to it: the library default of 2 s or less), and that it reports an overrun as a context error rather than an exit status (a child that exits on SIGINT is reported by mvdan.cc/sh as an ordinary status - read in interp/handler.go, not encodable)", "wall-clock units", "the claim is at wiring level: every job carries the timeout, each Execute derives a fresh deadline of the full duration, and the runner reacts correctly to the deadline error"},
 		Assumptions: []string{"context.WithTimeout intrinsic: deadline = now + d", "stub: interp.Runner.Run returns context.DeadlineExceeded iff start + duration > deadline", "time.Now: arbitrary non-decreasing instants"},
 		Replay:      map[string]*ReplaySpec{"*": {PkgDir: "internal/config", File: "C13_replay_test.go", Test: "TestVerifReplayC13"}}})
 
